@@ -512,10 +512,16 @@ impl TimerRig {
                 }
                 match *a {
                     TCR => {
+                        let old_div = if self.judged { divisor(self.model.tcr) } else { None };
                         self.model.tcr = *v;
                         match divisor(*v) {
                             Some(0) => {
                                 self.cand.clear();
+                                self.judged = true;
+                            }
+                            Some(d) if old_div == Some(d) && !self.cand.is_empty() => {
+                                // the same clock stays selected (only enable / clear bits change): the
+                                // count goes on with the phase it has - this is not a clock change
                                 self.judged = true;
                             }
                             Some(d) => {
